@@ -14,14 +14,27 @@
     round releases the lock.
 
     PROVED (Properties.v): [C04_ticker_progress] (a timeout for the current step is never lost),
+    [C04_timeout_never_lost] (the same for the whole round/step skeleton of state.go),
     [C04_good_round] (a round in which the correct validators have the same valid proposal block
     and compatible locks commits).
-    NOT PROVED: [lock_convergence] below — that from EVERY assignment of locks and valid blocks the
-    adversarial prefix can leave behind, the rounds of the synchronous suffix reach such a good
-    round within the bound; hence [C04_liveness_full_statement] is a definition, not a theorem.
-    The correspondence check (harness/overlay/consensus/verif_net_test.go, TestVerifC04) searches
-    for counterexamples on the real ConsensusState instead: adversarial prefix, synchronous suffix,
-    failure when no commit happens within 20 n rounds. *)
+
+    STATUS OF THE STATEMENT BELOW.  [C04_liveness_full_statement] as written here is FALSE
+    ([C04_liveness_full_statement_refuted], witness in C04/ProofsOpen.v): [prefix_conf] allows two correct
+    validators to be locked on different blocks, and [sync_round] hands a validator only the prevotes of
+    the current round, so nothing releases those locks; it also leaves the valid block of a validator that
+    unlocks unconstrained.  In the code the lock with the earlier round is released when the prevotes of
+    the later lock's round arrive (addVote, "Unlocking because of POL"), and under timely delivery all
+    correct validators count the same vote sets (gossip + the +2/3 claims of queryMaj23Routine).  The
+    model with these two facts is C04/LockModel.v; for it the liveness of the synchronous suffix IS proved
+    ([C04_liveness_partial]: from every well-formed configuration whose locks agree, one of the next 2 w
+    rounds commits at every correct validator; [locks_agree_from_polkas]: the locks agree once the polkas of
+    the earlier rounds are known to all).  What remains between that theorem and the property text:
+    the rotation window w is a hypothesis here and a theorem of C12 ([C04_rotation_bound_statement]); "a
+    block with a polka reaches every correct validator" relies on C13 (genuine parts complete a set);
+    "a new block of a correct proposer passes validateBlock" fails for the block time under the weighted
+    median finding ([C04_median_byzantine_refuted]); the refinement from ConsensusState to the round model is
+    checked by the harness (adversarial prefix, synchronous suffix, failure when no commit happens within
+    20 n rounds), not proved. *)
 From Coq Require Import List ZArith Arith Bool.
 From Kardia Require Import C01.Power C04.ProofsRound.
 Import ListNotations.
@@ -105,7 +118,7 @@ Definition lock_convergence (bound : nat) : Prop :=
 
 End Full.
 
-(** FULL LIVENESS (statement only): with the correct validators above two thirds of the power and a
+(** FULL LIVENESS in the abstraction of this file (refuted as written, see the header): with the correct validators above two thirds of the power and a
     proposer rotation in which a correct validator proposes at least once in every window of
     [w] rounds (C12), every synchronous suffix decides within [2 * w + 2] rounds, whatever the
     locks left by the adversarial prefix. *)
